@@ -387,6 +387,10 @@ func runC11(c *Ctx) {
 		c.Unknown("R11.7", "anchor-unresolved: adapterCoreView", 0, "type not found")
 	}
 
+	// ---------- R11.9 transparent reconnect keeps the request
+	c.Rule("R11.9", "E3", "a transparently re-established remote watch sends the same request (queries, API version, aggregation), only bootstrap/tail/bookmark differ (shared with C13 R13.1)", 6)
+	resumeRequestRule(c, "R11.9")
+
 	// ---------- R11.8 event tables
 	c.Rule("R11.8", "E4", "event-type tables inverse and exhaustive; Resource/Old/Error/Bookmark cross in both directions", 6)
 	eventTables(c, "R11.8")
